@@ -115,4 +115,12 @@ Theorem C11_byte_level_sessions_from_the_empty_directory : forall qs,
   exists d' g', dir_run ∅ qs = Ok (d', snd (ideal_run ∅ qs)) /\ DRep d' g' /\ GRep g' (fst (ideal_run ∅ qs)).
 Proof. exact sessions_from_the_empty_directory. Qed.
 
+(** ... and the directory holds nothing but the files of its maps (three per map, under the three names of each), the maps it
+    holds being exactly those of the ideal world *)
+Theorem C11_byte_level_directory_holds_only_the_files_of_its_maps : forall qs d g iw,
+  DRep d g -> GRep g iw -> DOnly d g -> reqs_ok g qs ->
+  exists d' g', dir_run d qs = Ok (d', snd (ideal_run iw qs)) /\ DRep d' g' /\ GRep g' (fst (ideal_run iw qs)) /\ DOnly d' g' /\
+    (forall name, is_Some (g' !! name) <-> is_Some ((fst (ideal_run iw qs)) !! name)).
+Proof. exact sessions_leave_only_map_files. Qed.
+
 Example C11_nonvacuous_directory := Io_world.ex_sessions.
